@@ -4,6 +4,7 @@
    emptyQueue() is false (through the generated body of emptyQueue). *)
 From Coq Require Import List Arith NArith ZArith Bool Lia.
 From EV Require Import QModel.
+From EV Require GenQFacts.
 From EV.gen Require GenQ.
 Import ListNotations.
 Local Open Scope nat_scope.
@@ -136,7 +137,7 @@ Section Balance.
   Theorem emptyq_false_when_busy rec st :
     1 <= ecount st -> q_step mech ordered klt behav pbehav rec st QEmpty = Some (qlog st (QRet false)).
   Proof.
-    intros H. unfold q_step, GenQ.empty_queue.
+    intros H. unfold q_step. rewrite GenQFacts.empty_queue_spec.
     assert (E : (Z.of_nat (ecount st) =? 0)%Z = false) by (apply Z.eqb_neq; lia).
     rewrite E. rewrite andb_false_r. reflexivity.
   Qed.
@@ -146,7 +147,7 @@ Section Balance.
     q_step mech ordered klt behav pbehav rec st QEmpty = Some st' ->
     (qtrace st' = QRet true :: qtrace st <-> qlist st = [] /\ ecount st = 0).
   Proof.
-    unfold q_step, GenQ.empty_queue. intros H. inversion H; subst. simpl. split.
+    unfold q_step. rewrite GenQFacts.empty_queue_spec. intros H. inversion H; subst. simpl. split.
     - intros X. inversion X as [Y]. apply andb_true_iff in Y. destruct Y as [Y1 Y2].
       split; [destruct (qlist st); [reflexivity|discriminate]|]. apply Z.eqb_eq in Y2. lia.
     - intros [A B]. rewrite A, B. reflexivity.
@@ -158,7 +159,7 @@ Section Balance.
   Theorem waitfor0_true_when_busy rec st :
     1 <= ecount st -> q_step mech ordered klt behav pbehav rec st QWaitFor0 = Some (qlog st (QRet true)).
   Proof.
-    intros H. unfold q_step, GenQ.can_process, GenQ.empty_queue, GenQ.can_notify.
+    intros H. unfold q_step. rewrite GenQFacts.can_process_spec.
     assert (E : (Z.of_nat (ecount st) =? 0)%Z = false) by (apply Z.eqb_neq; lia).
     rewrite E. rewrite andb_false_r. reflexivity.
   Qed.
@@ -167,7 +168,7 @@ Section Balance.
     q_step mech ordered klt behav pbehav rec st QWaitFor0 = Some st' ->
     (qtrace st' = QRet false :: qtrace st <-> qlist st = [] /\ ecount st = 0).
   Proof.
-    unfold q_step, GenQ.can_process, GenQ.empty_queue, GenQ.can_notify. intros H. inversion H; subst. simpl. split.
+    unfold q_step. rewrite GenQFacts.can_process_spec. intros H. inversion H; subst. simpl. split.
     - intros X. inversion X as [Y]. rewrite andb_true_r in Y. apply negb_false_iff in Y. apply andb_true_iff in Y. destruct Y as [Y1 Y2].
       split; [destruct (qlist st); [reflexivity|discriminate]|]. apply Z.eqb_eq in Y2. lia.
     - intros [A B]. rewrite A, B. reflexivity.
